@@ -90,7 +90,7 @@ fn random_args(rng: &mut Rng, in_range: Option<&str>) -> Args {
         }
         _ => {}
     }
-    let (bt, bt_enc) = match rng.below(8) {
+    let (bt, bt_enc) = match rng.below(9) {
         0 => (wirm::ir::types::BlockType::Empty, wasm_encoder::BlockType::Empty),
         1 => (wirm::ir::types::BlockType::Type(wirm::DataType::I32), wasm_encoder::BlockType::Result(wasm_encoder::ValType::I32)),
         2 => (wirm::ir::types::BlockType::Type(wirm::DataType::F64), wasm_encoder::BlockType::Result(wasm_encoder::ValType::F64)),
@@ -106,6 +106,38 @@ fn random_args(rng: &mut Rng, in_range: Option<&str>) -> Args {
                 heap_type: wasm_encoder::HeapType::Abstract { shared: false, ty: wasm_encoder::AbstractHeapType::Extern },
             })),
         ),
+        6 => {
+            // every abstract reference DataType, nullable and not (independent table: variant name -> (nullable, heap type))
+            use wasm_encoder::AbstractHeapType as E;
+            use wirm::DataType as D;
+            let table: [(D, bool, E); 20] = [
+                (D::FuncRef, false, E::Func),
+                (D::FuncRefNull, true, E::Func),
+                (D::ExternRef, false, E::Extern),
+                (D::ExternRefNull, true, E::Extern),
+                (D::Any, false, E::Any),
+                (D::AnyNull, true, E::Any),
+                (D::None, false, E::None),
+                (D::NoneNull, true, E::None),
+                (D::NoExtern, false, E::NoExtern),
+                (D::NoExternNull, true, E::NoExtern),
+                (D::NoFunc, false, E::NoFunc),
+                (D::NoFuncNull, true, E::NoFunc),
+                (D::Eq, false, E::Eq),
+                (D::EqNull, true, E::Eq),
+                (D::Struct, false, E::Struct),
+                (D::StructNull, true, E::Struct),
+                (D::Array, false, E::Array),
+                (D::ArrayNull, true, E::Array),
+                (D::I31, false, E::I31),
+                (D::I31Null, true, E::I31),
+            ];
+            let (d, nullable, e) = table[rng.below(20)].clone();
+            (
+                wirm::ir::types::BlockType::Type(d),
+                wasm_encoder::BlockType::Result(wasm_encoder::ValType::Ref(wasm_encoder::RefType { nullable, heap_type: wasm_encoder::HeapType::Abstract { shared: false, ty: e } })),
+            )
+        }
         _ => {
             let t = rng.next_u32() & 0x0fff_ffff;
             (wirm::ir::types::BlockType::FuncType(wirm::ir::id::TypeID(t)), wasm_encoder::BlockType::FunctionType(t))
